@@ -77,7 +77,8 @@ def third_party(a):
     if v == 1:
         colr = {"A": {"Format": PF.PaintColrLayers, "Layers": [{"Format": PF.PaintGlyph, "Glyph": "T", "Paint": solid(2)},
                                                               {"Format": PF.PaintRotate, "angle": 15, "Paint": {"Format": PF.PaintGlyph, "Glyph": "L", "Paint": lin}}]},
-                "B": {"Format": PF.PaintColrLayers, "Layers": [{"Format": PF.PaintScale, "scaleX": 0.6, "scaleY": 0.6, "Paint": {"Format": PF.PaintGlyph, "Glyph": "L", "Paint": solid(0xFFFF, 0.7)}},
+                # ... directly chained transform paints that do not commute (translate, then scale)
+                "B": {"Format": PF.PaintColrLayers, "Layers": [{"Format": PF.PaintTranslate, "dx": 140, "dy": -60, "Paint": {"Format": PF.PaintScale, "scaleX": 0.6, "scaleY": 0.6, "Paint": {"Format": PF.PaintGlyph, "Glyph": "L", "Paint": solid(0xFFFF, 0.7)}}},
                                                               {"Format": PF.PaintGlyph, "Glyph": "T", "Paint": solid(0)}]}}
         if a["zero_width"]:
             colr["mark"] = {"Format": PF.PaintGlyph, "Glyph": "mark", "Paint": solid(1)}
